@@ -399,7 +399,8 @@ class RingDomain(LiaDomain):
         for k, n in names.items():
             d[n] = "Bool"
         self.last_names = {n: k for k, n in names.items()}
-        text = LiaDomain.emit(self, d, bounds, hyps2, goal2, slice_hyps=slice_hyps)
+        # no cone-of-influence slicing here: ring atoms are related by the theory, not by shared symbols
+        text = LiaDomain.emit(self, d, bounds, hyps2, goal2, slice_hyps=False)
         legend = "\n".join("; %s  :=  [%s == 0 in GF(p)]" % (n, k) for k, n in sorted(names.items(), key=lambda kv: kv[1]))
         return legend + "\n" + text if legend else text
 
